@@ -72,7 +72,7 @@ def focus_list():
 
 
 def generate(rng, index, tier):
-    if index % 2999 == 13:
+    if index % 997 == 13:
         # a fork storm: as many threads as a count the source names each announce a process (or a thread) and none of the name
         # strings is in the dump
         n = worlds.dict_size(rng, 70000) or 4000
@@ -100,7 +100,9 @@ def generate(rng, index, tier):
         first = worlds.op_long_window(rng, 'BSC_read', n)
         first['noend'] = rng.chance(0.7)
         ops = [first] + worlds.gen_ops(rng, ctx, 3, {'bsd': 2, 'path': 1, 'mach': 1}, depth=1)
-        return {'threads': [{'tid': 300, 'ops': _ascii(ops)}], 'schedule': [], 'focus': 'BSC_read', 'double_seed': 1, 'colour': False,
+        # a second thread finished a call right at the start and is idle ever since
+        idle = {'tid': 311, 'ops': [{'k': 'sys', 'name': 'BSC_getpid', 's': [0, 0, 0, 0], 'e': [0, 9, 0, 0], 'in': []}]}
+        return {'threads': [{'tid': 300, 'ops': _ascii(ops)}, idle], 'schedule': [1, 1], 'focus': 'BSC_read', 'double_seed': 1, 'colour': False,
                 't0': 0x123411, 'long': n}
     cat = worlds.catalog()
     names = focus_list()
